@@ -566,6 +566,9 @@ def stepToks (s : DState) (toks : List String) : DState × String :=
       -- the model's state does not depend on the join schedule; the join count is not modelled
       (s.setC r { reg with h := C.update genK s.csd reg.h data, absorbed := reg.absorbed ++ data }, "ok;-")
     | _, _ => bad
+  | ["C", "updnull", r] => match s.getC r with       -- update(NULL, 0): a no-op (`zero_len_update_noop`)
+    | some _ => (s, "ok;-")
+    | none => bad
   | ["C", "fin", r, n] => match s.getC r, n.toNat? with
     | some reg, some n =>
       (s, hexOfBytes (C.finalize genK reg.h n) ++ ";" ++ hexOfBytes (streamFast (Spec.root reg.mode reg.absorbed) 0 n))
